@@ -100,7 +100,8 @@ def compare_rotated(before, after, k, ctx, where, report):
             ok = False
         elif p0 is not None:
             d0 = denote({"parts": p0}, n)
-            d1 = [((p - kk) % n, st) for p, st in denote({"parts": p1}, n)]
+            back = lambda p: ("gap", (p[1] - kk) % n) if isinstance(p, tuple) else (p - kk) % n
+            d1 = [(back(p), st) for p, st in denote({"parts": p1}, n)]
             if not same_denotation(d0, d1, n):
                 report("rotation-feature-location", "%s by %d on length %d: feature %s at %r moved to %r, which denotes other nucleotides" % (where, k, n, key, p0, p1), n=n, k=k, before=p0, after=p1)
                 ok = False
@@ -310,6 +311,12 @@ def compare_reverse_complement(before, after, ctx, where, report, check_seq=True
     s1 = str(after.seq)
     if check_seq and s1 != rc(s0):
         report("rc-sequence", "%s: sequence %r is not the reverse complement of %r" % (where, s1[:60], s0[:60]), n=n)
+    la1 = {t: list(v) for t, v in after.letter_annotations.items()}
+    for t, v in la0.items():
+        if t not in la1:
+            report("rc-letter-annotations-lost", "%s: per-letter track %r is missing from the result" % (where, t), n=n)
+        elif la1[t] != list(v)[::-1]:
+            report("rc-letter-annotations", "%s: per-letter track %r is not reversed with the sequence (%r -> %r)" % (where, t, list(v)[:8], la1[t][:8]), n=n)
     ft1 = feature_table(after)
     if set(ft1) != set(ft0):
         report("rc-features-lost", "%s: feature keys %s became %s" % (where, sorted(map(str, ft0)), sorted(map(str, ft1))), n=n)
@@ -327,7 +334,8 @@ def compare_reverse_complement(before, after, ctx, where, report, check_seq=True
         stranded = all(st in (1, -1) for _, _, st in p0)
         d0 = denote({"parts": p0}, n)
         d1 = denote({"parts": p1}, n)
-        exp = [((n - 1 - p) % n, (-st if st else st)) for p, st in d0]
+        mirror = lambda p: ("gap", (n - p[1]) % n) if isinstance(p, tuple) else (n - 1 - p) % n
+        exp = [(mirror(p), (-st if st else st)) for p, st in d0]
         ctx.count("rc_feature_checks")
         if [st for _, st in d1] != [st for _, st in exp] and len(d1) == len(exp):
             report("rc-feature-strand", "%s: feature %s at %r became %r: strand not flipped" % (where, key, p0, p1), n=n, before=p0, after=p1)
